@@ -17,7 +17,7 @@ import (
 )
 
 var (
-	uniTypes = []string{"doc", "group", "user"}
+	uniTypes = []string{"doc", "group", "user", "users"} // "user" is a string prefix of "users": type filters must compare whole type names
 	uniIDs   = []string{"0", "1", "2", "3"}
 	uniRels  = []string{"r0", "r1", "r2"}
 	uniConds = []string{"c1", "c2"}
